@@ -20,7 +20,8 @@ RULE = ('generated single-namespace class trees of depth <= 3 with primitive/arr
         '{XmlDocument, Soap11, Soap12, Json, Yaml, MessagePack} x polymorphic {on, off} x direction {request, response}; every tree of depth 3 is additionally declared in two stages (roots and '
         'children first, used by an application; the deeper classes afterwards) and the grown tree judged the same way; non-trivial = '
         'an instance of a proper subclass travelled and was compared; distinct by (protocol, polymorphic, direction, slot shape, '
-        'declared->runtime class distance).')
+        'declared->runtime class distance).'
+        ' Also: trees in a namespace other than the application\'s, member-less intermediate classes, msgpack with binary keys, the order and selection of declarations vary (a base may be met first as an array item, repeated or mandatory member), public names differing from attribute names.')
 ASSUMPTIONS = [
     'the xsi:type marker must resolve with the namespace declarations in scope in the transmitted bytes (lxml nsmap of the parsed response)',
     'dict documents: ignore_wrappers=False, the wrapper key is the type marker',
